@@ -1,6 +1,7 @@
 import Irismod.Props.C03
 open Irismod Irismod.Sdk Irismod.Htlc Irismod.Spec.C03 Irismod.Spec.C04 Irismod.Props.C03
 #print axioms inv_init
+#print axioms inv_reachable
 #print axioms inv_step_all
 #print axioms queueInv_reachable
 #print axioms queue_entry_unique
